@@ -23,25 +23,30 @@ def plan_text(inst, res):
     return glist(["(mkPl %s %s %s %s)" % (gz(t), gz(p[0]), gnat(p[1]) if p[1] >= 0 else gnat(99), gz(p[2])) for t, p in exp if p])
 
 
-def max_hyp_py(inst):
-    return (not T.has_running(inst) and all(t["nparents"] == len(t["parents"]) for t in inst["tasks"])
-            and all(s[0] > 0 for t in inst["tasks"] for s in t["strats"]))
+max_hyp_py = T.max_hyp_py
 
 
 def tight_world(rng, flavour):
-    """One CPU, 2-3 independent tasks whose runtimes add up exactly to the common deadline: every task can be placed
-    only if the plan is back-to-back (touching intervals), at exactly one order-independent set of slots."""
-    now = rng.choice([0, 1, 2])
-    n = rng.choice([2, 2, 3])
-    rts = [rng.choice([1, 2, 3]) for _ in range(n)]
+    """One worker with one CPU (sometimes split over two entries of a 2-CPU worker), 1-3 independent tasks whose runtimes add
+    up exactly to the common deadline: every task can be placed only if the plan is back-to-back (touching intervals) starting
+    at slot `now`.  The discretisation d is 1, 2, 3 or 5, runtimes are multiples of d and `now` is NOT a multiple of d."""
+    d = rng.choice([1, 2, 3, 5])
+    now = rng.choice([0, 1, 2]) if d == 1 else rng.choice([k for k in range(1, 3 * d) if k % d != 0])
+    n = rng.choice([1, 2, 2, 3])
+    rts = [d * rng.choice([1, 1, 2]) for _ in range(n)]
+    cpus = 1
+    res = [["CPU", 1]]
+    if rng.random() < 0.4:      # two CPUs split over two entries, every task asks for both
+        cpus = 2
+        res = [["CPU", 1, "u0"], ["CPU", 1, "u1"]]
     graphs = []
     for k, rt in enumerate(rts):
-        graphs.append({"name": "g%d" % k, "tasks": [{"name": "t%d0" % k, "strats": [[rt, [["CPU", 1]]]], "children": [],
+        graphs.append({"name": "g%d" % k, "tasks": [{"name": "t%d0" % k, "strats": [[rt, [["CPU", cpus]]]], "children": [],
                                                       "release": rng.randint(0, now), "deadline": now + sum(rts),
                                                       "state": "released"}]})
-    return {"now": now, "cfg": {"flavour": flavour, "enforce": True, "retract": True, "disc": 1, "release_tg": False,
+    return {"now": now, "cfg": {"flavour": flavour, "enforce": True, "retract": True, "disc": d, "release_tg": False,
                                 "plan_ahead": -1},
-            "resources": T.RES, "pools": [[{"name": "W1", "res": [["CPU", 1]]}]], "graphs": graphs}
+            "resources": T.RES, "pools": [[{"name": "W1", "res": res}]], "graphs": graphs}
 
 
 def run(ctx):
@@ -50,7 +55,7 @@ def run(ctx):
     ng, nc = (50, 30) if quick else (600, 300)
     worlds = T.generate(ctx, ng, nc, allow_running=False)
     seen = {T.world_key(w) for w in worlds}
-    for k in range(16 if quick else 120):
+    for k in range(24 if quick else 160):
         w = tight_world(ctx.rng, "gurobi" if k % 2 == 0 else "cplex")
         if T.world_key(w) not in seen:
             seen.add(T.world_key(w))
@@ -80,7 +85,9 @@ def run(ctx):
     T.monitor_plans(ctx, worlds, results, "M-maximal", "(fun p => maximal_okb (fst p) (snd p))",
                     "a rewarded offered task was left unplaced although it can be added at some (slot, worker, strategy) keeping "
                     "capacity, release, precedence and deadline limits (formulation's convention: half-open occupation on the slot grid)",
-                    skip=lambda inst: not max_hyp_py(inst))
+                    skip=lambda inst: not max_hyp_py(inst), probe_kinds=["c14"])
+    # a task cancelled by the admission control although it is not hopeless is goodput left on the table as well
+    T.monitor_hopeless(ctx, worlds, results)
     # ---- brute force on tiny worlds
     nt = 24 if quick else 500
     tiny = T.generate(ctx, nt - nt // 3, nt // 3, tiny=True, allow_running=False)
@@ -153,4 +160,4 @@ def run(ctx):
     except core.ModelEvalError as e:
         ctx.broken.append({"kind": "monitor", "name": "M-known", "detail": str(e)[-800:]})
     if ctx.broken:
-        T.py_monitor_fallback(ctx, worlds, results)
+        T.py_monitor_fallback(ctx, worlds, results, maximal=True)
